@@ -144,10 +144,19 @@ def conditions(prop, tier):
              ('other', "not ('A' <= s[0] <= 'Z' or 'a' <= s[0] <= 'z' or '0' <= s[0] <= '9' or s[0] in '-\"' or s[0] == chr(39) "
                        "or s[0] in ' \\t\\r\\n' or s[0] in '[]{}():;,.|')")]
     n0 = 3 if q else 4
+    IDCH = "(s[1] == '-' or 'a' <= s[1] <= 'z' or 'A' <= s[1] <= 'Z' or '0' <= s[1] <= '9')"
     for tag, pre in first:
-        out.append(dict(name='%s.lex.INITIAL.%s' % (prop, tag), fn='step', fixed=dict(st=0), timeout=t,
-                        extra_pre=['1 <= len(s) <= %d' % n0, pre],
-                        bounds='one token() call from INITIAL, symbolic line number, symbolic text of 1..%d characters starting with a %s character' % (n0, tag)))
+        if tag in ('upper', 'lower'):
+            # the two big classes are split further (by length and by the class of the second character) to use all cores
+            subs = [('-short', '1 <= len(s) <= %d' % (n0 - 1)), ('-idch', 'len(s) == %d and %s' % (n0, IDCH)),
+                    ('-other', 'len(s) == %d and not %s' % (n0, IDCH))]
+        else:
+            subs = [('', '1 <= len(s) <= %d' % n0)]
+        for sub, lenpre in subs:
+            out.append(dict(name='%s.lex.INITIAL.%s%s' % (prop, tag, sub), fn='step', fixed=dict(st=0), timeout=t,
+                            extra_pre=[lenpre, pre],
+                            bounds='one token() call from INITIAL, symbolic line number, symbolic text of 1..%d characters starting with a %s '
+                                   'character%s' % (n0, tag, ' (sub-shard %s)' % sub[1:] if sub else '')))
     out.append(dict(name='%s.lex.INITIAL.empty' % prop, fn='step', fixed=dict(st=0, s=''), timeout=t, bounds='empty remaining input'))
     for st, n in ((1, 4 if q else 5), (2, 3 if q else 4), (3, 3 if q else 4), (4, 3 if q else 4)):
         out.append(dict(name='%s.lex.%s' % (prop, STATES[st]), fn='step', fixed=dict(st=st), timeout=t,
